@@ -663,10 +663,18 @@ def shrink(ctx, binp, e, budget=40):
             key0 = failing_key(cur, r0[0][1])[0].split(";")[1]
     except vlib.ToolError:
         pass
+    # the drain rounds of the epilogue (the run of unblock / provall / adv / disp before "drained") stay:
+    # without them "drained" is rejected for the uninteresting reason that nothing was drained
+    ops = [c["op"] for c in cur.cmds]
+    keep_from = len(ops)
+    if "drained" in ops:
+        keep_from = ops.index("drained")
+        while keep_from > 0 and ops[keep_from - 1] in ("unblock", "provall", "adv", "disp"):
+            keep_from -= 1
     i = len(cur.cmds) - 1
     while i >= 0 and tried < budget:
         c = cur.cmds[i]
-        if c["op"] in ("new", "sink"):
+        if c["op"] in ("new", "sink") or (i >= keep_from and c["op"] in ("unblock", "provall", "adv", "disp", "drained")):
             i -= 1
             continue
         cand = Exe(cur.cmds[:i] + cur.cmds[i + 1:], cur.source)
